@@ -1,5 +1,5 @@
 """Shared by the C03 / C05 harnesses: JSON <-> chempy objects for reaction systems with exact numbers,
-random reaction systems, random *balanced* reactions over random "molecules".
+random reaction systems, random "molecules" (the balanced-reaction planting lives in c05.py).
 
 A number is sent as int or [num, den]; `num` in a case selects the Python type the real code is driven with:
 'int' | 'Fraction' | 'Rational' (sympy) | 'float' (dyadic values only, so that float arithmetic is exact)."""
@@ -161,37 +161,3 @@ def rand_molecule(rng, elements, charge_p=0.3):
     if rng.random() < charge_p:
         comp[0] = rng.choice([-2, -1, 1, 2, 3])
     return comp
-
-
-def regroup_reaction(rng, names, comps):
-    """A balanced reaction built by planting: pick a random integer combination of molecules as reactants and add a fresh
-    product molecule holding exactly the reactants' atoms and charge (or split them over two products).
-    Returns (spec, new substances [(name, comp)])."""
-    ks = rng.sample(names, rng.randint(1, min(3, len(names))))
-    reac = [[k, rng.randint(1, 3)] for k in ks]
-    total = {}
-    for k, n in reac:
-        for e, v in comps[k].items():
-            total[e] = total.get(e, 0) + n * v
-    total = {e: v for e, v in total.items() if v != 0 or e == 0}
-    if total.get(0) == 0:
-        del total[0]
-    new = []
-    if rng.random() < 0.5 or sum(abs(v) for v in total.values()) < 2:
-        new.append(dict(total))
-        prod_counts = [1]
-    else:
-        a = {}
-        for e, v in total.items():
-            if e == 0:
-                x = rng.randint(min(0, v), max(0, v))
-            else:
-                x = rng.randint(0, v)
-            if x:
-                a[e] = x
-        b = {e: v - a.get(e, 0) for e, v in total.items() if v - a.get(e, 0) != 0}
-        new = [m for m in (a, b) if m and any(e != 0 for e in m)]
-        if len(new) != 2:
-            new = [dict(total)]
-        prod_counts = [1] * len(new)
-    return reac, new, prod_counts
